@@ -239,10 +239,17 @@ func c09Settings(full bool) []c09Setting {
 }
 
 // c09MatrixLines: every report command; variant 0 plain, variant 1 with a small node count argument.
-func c09MatrixLines(variant int) []string {
+func c09MatrixLines(variant int, full bool) []string {
 	names, hasParam := driver.VerifC09Commands()
+	// quick: one command per report format (the nine dot-based commands differ only in the external
+	// program that is not started here); a command unknown to this list is always kept
+	dup := map[string]bool{"gif": true, "pdf": true, "png": true, "ps": true, "eog": true, "evince": true, "gv": true, "web": true,
+		"kcachegrind": true, "text": true}
 	var lines []string
 	for i, n := range names {
+		if !full && dup[n] {
+			continue
+		}
 		switch {
 		case hasParam[i] && variant == 0:
 			lines = append(lines, n+" .")
@@ -275,15 +282,18 @@ func c09Matrix(c *Ctx, stream string) {
 			}
 			for ti, st := range settings {
 				k++
-				if !full && si >= 1 && !pick(k) {
-					continue // quick: the diamond with every setting, the other shapes with a rotating third
+				if !full && si == 0 && len(st.lines) > 0 && !strings.HasPrefix(st.lines[0], "call_tree") && k%2 != int(c.Seed%2) {
+					continue // quick, diamond: every setting that involves call_tree, a rotating half of the others
+				}
+				if !full && si >= 1 && (!pick(k) || (si >= 2 && (k/3)%3 != int(c.Seed/3%3))) {
+					continue // quick: "mixed" with a rotating third of the settings, the other shapes a ninth
 				}
 				variants := []int{ti % 2}
 				if full {
 					variants = []int{0, 1}
 				}
 				for _, v := range variants {
-					lines := append(append([]string{}, st.lines...), c09MatrixLines(v)...)
+					lines := append(append([]string{}, st.lines...), c09MatrixLines(v, full)...)
 					c09Session(c, "matrix-session-"+sh.name, sh.p, lines, true)
 				}
 			}
@@ -293,7 +303,7 @@ func c09Matrix(c *Ctx, stream string) {
 			for _, st := range settings {
 				for i, n := range names {
 					k++
-					if !pick(k/7) || (!full && k%7 != 0 && !(n == "tree" || n == "dot" || n == "callgrind" || n == "top")) {
+					if !pick(k/7) || (!full && k%7 != 0 && !(n == "tree" || n == "dot" || n == "callgrind")) {
 						continue
 					}
 					arg := "-" + n
@@ -315,7 +325,7 @@ func c09Matrix(c *Ctx, stream string) {
 				}
 				for _, pth := range paths {
 					k++
-					if !pick(k) {
+					if !pick(k) || (!full && (k/3)%2 != int(c.Seed/3%2)) {
 						continue
 					}
 					q := st.query
